@@ -331,6 +331,8 @@ func TestC04(t *testing.T) {
 		faulty := []fsCall{
 			{Kind: "call", Plan: Plan{Gate: true}, When: "pre"}, {Kind: "notify", Plan: Plan{Gate: true}, When: "pre"}, {Kind: "call", Plan: Plan{Size: 6000}, When: "pre"},
 			{Kind: "retry", Plan: Plan{Gate: true}, When: "pre"}, {Kind: "call", When: "window"}, {Kind: "notify", When: "window"}, {Kind: "retry", When: "window"}, {Kind: "call", When: "healed"},
+			// an ordinary call through the function tagged retry:"false", in flight at the fault and in the window
+			{Kind: "call", Plan: Plan{Gate: true, TagFalse: true}, When: "pre"}, {Kind: "call", Plan: Plan{TagFalse: true}, When: "window"},
 		}
 		k := 0
 		off := envInt("VERIF_SEED", 1)
